@@ -100,9 +100,18 @@ impl Check for C15 {
         let mut t = base_instant(&mut r, &env.host_rule);
         let n = 8 + r.below(20);
         let cfg_rate = *r.pick(&[0u64, 1, 3]);
-        let lang = if r.chance(1, 3) { "tr" } else { "en" };
+        let mut lang = if r.chance(1, 3) { "tr" } else { "en" };
         let mut dec = ",".to_string();
         let mut events = Vec::new();
+        // a third of the runs: every value goes through ONE long-lived session whose language is switched
+        // between values (what a session keeps from earlier prints must not leak into later ones)
+        let session = r.chance(1, 3);
+        let first_lang = lang;
+        if session { events.push(Event { actor: 0, op: Op::SessionNew { lang: lang.into() }, clock: ClockScript::Frozen { t } }); }
+        // a third of the runs: user-defined units registered while the calculator is already in use
+        let user_units = r.chance(1, 3);
+        let mut fam_items: Vec<(String, usize)> = Vec::new();
+        let mut fam_added = false;
         if r.chance(1, 6) {
             // around New Year under a non-UTC default zone: the year shown/elided and the default year read
             // back must agree although the zone's year and the UTC year differ for some hours
@@ -131,12 +140,35 @@ impl Check for C15 {
                 }
                 continue;
             }
+            if user_units && r.chance(1, 4) {
+                if !fam_added { fam_added = true; events.push(Event { actor: ADMIN, op: Op::Admin(AdminOp::AddType { name: "famq".into() }), clock: clock.clone() }); }
+                let idx = 1 + fam_items.len();
+                if idx <= 4 {
+                    let unit = format!("famq{}", (b'a' + idx as u8) as char);
+                    let k = *r.pick(&[2u32, 5, 10]);
+                    events.push(Event { actor: ADMIN, op: Op::Admin(AdminOp::AddTypeItem(crate::trace::TypeItemSpec { family: "famq".into(), index: idx, format: format!("{{value}} {}", unit), parse: vec![format!("{{NUMBER:value}} {{TEXT:type:{}}}", unit)], upgrade: format!("{{value}} / {}", k), downgrade: format!("{{value}} * {}", k), names: vec![unit.clone()] })), clock });
+                    fam_items.push((unit, idx));
+                    continue;
+                }
+            }
+            if session && r.chance(1, 3) {
+                lang = if lang == "en" { "tr" } else { "en" };
+                events.push(Event { actor: 0, op: Op::SessionLang { lang: lang.into() }, clock: clock.clone() });
+            }
             let k = 1 + r.usize(4);
             let today = utc_date(t);
-            let lines: Vec<Line> = (0..k).map(|_| { let (kind, line) = gen_value(&mut r, &g, &sg, lang, &dec, today); Line::Raw(format!("{}{}\u{1}{}", MARK, kind, line)) }).collect();
-            events.push(Event { actor: 0, op: Op::Execute { lang: lang.into(), text: TextSpec { crlf: vec![false; lines.len()], lines, trailing_nl: false } }, clock });
+            let lines: Vec<Line> = (0..k).map(|_| {
+                let (kind, line) = if !fam_items.is_empty() && r.chance(1, 3) {
+                    // a quantity of a user-defined unit, directly or as the result of a conversion along the chain
+                    let (u, _) = r.pick(&fam_items).clone();
+                    if lang == "en" && fam_items.len() > 1 && r.chance(1, 2) { let (u2, _) = r.pick(&fam_items).clone(); ("unit:famq".to_string(), format!("{} {} to {}", 100 * (1 + r.below(90)), u, u2)) } else { ("unit:famq".to_string(), format!("{} {}", 1 + r.below(5000), u)) }
+                } else { gen_value(&mut r, &g, &sg, lang, &dec, today) };
+                Line::Raw(format!("{}{}\u{1}{}", MARK, kind, line))
+            }).collect();
+            let text = TextSpec { crlf: vec![false; lines.len()], lines, trailing_nl: false };
+            events.push(Event { actor: 0, op: if session { Op::SessionText { text } } else { Op::Execute { lang: lang.into(), text } }, clock });
         }
-        Trace { check: "C15".into(), seed, host_tz: env.host_tz.clone(), salt: 0, mode: lang.into(), events }
+        Trace { check: "C15".into(), seed, host_tz: env.host_tz.clone(), salt: 0, mode: format!("{}{}{}", first_lang, if session { "+session" } else { "" }, if user_units { "+user-units" } else { "" }), events }
     }
 
     fn execute(&self, trace: &Trace, env: &Env) -> RunReport {
@@ -144,6 +176,7 @@ impl Check for C15 {
         let t0 = trace.events.first().map(|e| e.clock.base()).unwrap_or(NS);
         let mut w = World::new(&env.data, 0, t0);
         let mut last_t = t0;
+        let mut session_lang = String::from("en");
         for (ei, ev) in trace.events.iter().enumerate() {
             let t = ev.clock.base();
             if utc_date(t).0 != utc_date(last_t).0 { rep.count("clock.advance_over_new_year"); }
@@ -151,20 +184,26 @@ impl Check for C15 {
             last_t = t;
             match &ev.op {
                 Op::Admin(op) => { let _ = w.admin(op, &ev.clock); let _ = w.cfg.apply(&env.data, op); rep.count(op.kind()); }
-                Op::Execute { lang, text } => {
+                Op::SessionNew { lang } => { w.session_new(ev.actor, lang); session_lang = lang.clone(); }
+                Op::SessionLang { lang } => { if w.sessions.contains_key(&ev.actor) { w.session_set_language(ev.actor, lang); session_lang = lang.clone(); rep.count("session.language_switch"); } }
+                Op::Execute { .. } | Op::SessionText { .. } => {
+                    let (lang, text, via_session) = match &ev.op { Op::Execute { lang, text } => (lang.clone(), text, false), Op::SessionText { text } => (session_lang.clone(), text, true), _ => unreachable!() };
+                    let lang = &lang;
+                    if via_session && !w.sessions.contains_key(&ev.actor) { w.session_new(ev.actor, lang); }
+                    if via_session { rep.count("session.value_through_long_lived_session"); }
                     if lang != "en" { rep.count("lang.other"); }
                     { let day = 86400 * NS; let rr = t.rem_euclid(day); if rr < 2 * NS || day - rr <= 2 * NS { rep.count("clock.frozen_boundary"); } }
                     for l in text.lines.iter() {
                         let raw = match l { Line::Raw(s) => s, _ => continue };
                         let (kind, line) = match raw.strip_prefix(MARK).and_then(|x| x.split_once('\u{1}')) { Some((k, l)) => (k.to_string(), l.to_string()), None => ("?".to_string(), raw.clone()) };
                         let base_kind = kind.split(':').next().unwrap_or("?").to_string();
-                        let (o1, _) = w.execute(lang, &line, &ev.clock);
+                        let (o1, _) = if via_session { w.session_text(ev.actor, &line, &ev.clock) } else { w.execute(lang, &line, &ev.clock) };
                         rep.evaluations += 1;
                         rep.mix_obs(&o1.short());
                         let s1 = match &o1 { CallObs::Returned { lines, .. } => lines.first().map(|x| x.slot.clone()), CallObs::Unwound(p) => { rep.violate("O-roundtrip", format!("C15:{}", p.key()), ei, format!("evaluating {:?} panicked: {} at {}", line, p.msg, p.loc)); continue; } };
                         let (out1, val1) = match s1 { Some(Slot::Ok { out, val }) => (out, val), _ => { rep.unjudged += 1; rep.count("unjudged.first-evaluation-not-ok"); continue; } };
                         if kind_of(&val1) != base_kind || out1.is_empty() { rep.unjudged += 1; rep.count("unjudged.value-of-another-kind"); continue; }
-                        let (o2, _) = w.execute(lang, &out1, &ev.clock);
+                        let (o2, _) = if via_session { w.session_text(ev.actor, &out1, &ev.clock) } else { w.execute(lang, &out1, &ev.clock) };
                         rep.evaluations += 1;
                         rep.judged += 1;
                         rep.count(if matches!(base_kind.as_str(), "date" | "time") { "probe.pairs_clock_dependent" } else { "probe.pairs_clock_free" });
